@@ -260,7 +260,10 @@ def op_get(w, res, uri, hist, has=False):
         reused = False
         if w.cfg["moddir"]:
             M = w.modules.get(uri)
-            if M is not None and M["mtime"] >= F["mtime"] and not (M["frm"] == (file[0], uri, F["version"])):
+            if M is not None and M["mtime"] >= F["mtime"]:
+                # the module file is up to date and is loaded as it is: the template carries the time at which THAT was
+                # generated (also when it was generated from this very version, e.g. before an eviction), and a later
+                # touch of the source in the second of this load is a modification
                 reused = True
             if M is None or M["mtime"] < F["mtime"]:
                 w.modules[uri] = {"frm": (file[0], uri, F["version"]), "mtime": now}
